@@ -12,6 +12,9 @@ from harness import common, framegen, vecgen
 LEVEL = {"partial": ["np.split / np.repeat / np.argsort / np.concatenate are primitive stand-ins validated by the correspondence run",
                      "the shorthand-equals-lambda clause is observed on the generated frames for the helpers count/first/last/sum/min (helper semantics proper: C07)"]}
 ASSUMPTIONS = ["np.split(arr, starts[1:]) cuts at the given positions; np.lexsort stable"]
+# objects with a history are also left grouped by an earlier group_by (harness/warm.py): none of the
+# operations of this property is documented as group-wise
+WARM_GROUPED = True
 RULE = ("frames of 0..40 rows in random row order, 1..3 group columns over 10 dtype kinds with missing values, ±0.0, ±inf, 2**53; "
         "operations: aggregate (lambda collecting row ids, count, shorthand helper vs lambda), split, grouped modify (per-row and "
         "per-group-scalar functions), count; non-trivial = >=3 rows, >=2 groups, some group of size >=2; thorough adds all key "
